@@ -316,7 +316,13 @@ def classify_call(prog: Program, fi: FuncInfo, call: ast.Call) -> list[Effect]:
             if len(parts) >= 2 and parts[-2] in ("Generator", "RandomState", "Random", "SeedSequence", "BitGenerator") and recv is not None:
                 continue
             out.append(Effect("rng", "global:" + e, call))
-    if recv is not None and (dotted(recv) or "").endswith(".rng") and not tg.funcs():
+    rsrc = recv
+    if isinstance(recv, ast.Name):  # rng = self.rng ; rng.uniform(...): a local alias bound exactly once
+        defs = [st.value for st in ast.walk(fi.node) if isinstance(st, ast.Assign) and any(isinstance(t, ast.Name) and t.id == recv.id for t in st.targets)]
+        stores = [x for x in ast.walk(fi.node) if isinstance(x, ast.Name) and x.id == recv.id and isinstance(x.ctx, ast.Store)]
+        if len(defs) == 1 and len(stores) == 1 and recv.id not in fi.param_names():
+            rsrc = defs[0]
+    if rsrc is not None and (dotted(rsrc) or "").endswith(".rng") and not tg.funcs():
         out.append(Effect("rng", "seeded:" + (attr or ""), call, recv))
     return out
 
